@@ -62,7 +62,14 @@ CAMLprim value vp_varint_length(value v)
 }
 CAMLprim value vp_varint_length_packed(value s)
 {
-	return Val_long(mtbl_varint_length_packed((const uint8_t *) String_val(s), caml_string_length(s)));
+	/* the bytes are copied to the END of a buffer whose following bytes all have the continuation bit set: a decoder
+	 * that looks past len_data finds no terminator there (and reads memory it was not given) */
+	size_t n = caml_string_length(s);
+	uint8_t *raw = malloc(n + 32); memset(raw, 0xAA, n + 32);
+	memcpy(raw + 16, String_val(s), n); memset(raw + 16 + n, 0x80, 16);
+	size_t r = mtbl_varint_length_packed(raw + 16, n);
+	free(raw);
+	return Val_long(r);
 }
 CAMLprim value vp_fixed_encode(value bits, value v, value align)
 {
